@@ -85,6 +85,31 @@ def klass(site):
     return "OTHER", None
 
 
+KEEP_NAMES = {"self", "context", "cls", "True", "False", "None"}
+
+
+def canonical_text(repo, relfile, node):
+    """source text of an expression with its local variables renamed v0, v1, ... in order of
+    appearance, so that a site key survives the renaming of a local (module-level names,
+    builtins, self / context are kept)"""
+    import builtins
+    import copy
+    mod = repo.module(relfile)
+    keep = KEEP_NAMES | set(mod.top) | set(mod.imports) | set(dir(builtins))
+    node = copy.deepcopy(node)
+    ren = {}
+    names = sorted((x for x in ast.walk(node) if isinstance(x, ast.Name)), key=lambda x: (x.lineno, x.col_offset))
+    for x in names:
+        if x.id in keep:
+            continue
+        if x.id not in ren:
+            ren[x.id] = f"v{len(ren)}"
+    for x in names:
+        if x.id in ren:
+            x.id = ren[x.id]
+    return ast.unparse(node)
+
+
 def value_sites(repo):
     out = []
     for s in scan.attr_reads(repo, {"value"}):
@@ -95,6 +120,7 @@ def value_sites(repo):
         k, d = klass(s)
         s2 = dict(s)
         s2["class"], s2["detail"] = k, d
-        s2["key"] = f"{s['file']}|{s['function']}|{s['consumer']}"
+        s2["key"] = f"{s['file']}|{s['function']}|{canonical_text(repo, s['file'], s['consumer_node'])}"
+        s2["key_as_written"] = f"{s['file']}|{s['function']}|{s['consumer']}"
         out.append(s2)
     return out
